@@ -9,6 +9,7 @@ import AITB.Model.FactoredAlg
 import Mathlib.Algebra.Order.Field.Rat
 import Mathlib.Tactic.Ring
 import Mathlib.Tactic.Linarith
+import Mathlib.Tactic.FieldSimp
 
 namespace AITB.Factored
 
@@ -383,7 +384,7 @@ theorem sortedContains_sublist (v e : List Nat) (h : sortedContains v e = true) 
   unfold sortedContains at h
   by_cases hl : v.length = e.length
   · simp only [hl, if_true, beq_iff_eq] at h
-    rw [h]; exact List.Sublist.refl _
+    subst h; exact List.Sublist.refl _
   · simp only [hl, if_false] at h
     exact containsScan_sublist v e h
 
@@ -518,5 +519,73 @@ theorem fvMinusEqualFV_pointwise (sp x : List Nat) (fv rhs : FV) (hx : Valid sp 
   unfold fvMinusEqualFV
   have e : fvMinusEqual true sp = fvAddBasis (-1) (-1) sp := by funext f b; simp [fvMinusEqual]
   rw [e, this]; ring
+
+/-! ## scalar operations and weighted combinations -/
+
+theorem get_mul (c : Rat) (sp x : List Nat) (b : BF) :
+    ({ b with vals := b.vals.map (· * c) } : BF).get sp x = b.get sp x * c := by
+  unfold BF.get
+  simp only
+  exact getD_map_zero (· * c) (by simp) _ _
+
+/-- **operator*=(double)** — no hypotheses at all -/
+theorem fvScale_pointwise (c : Rat) (sp x : List Nat) : ∀ (fv : FV), fvGet sp (fvScale c fv) x = fvGet sp fv x * c
+  | [] => by simp [fvScale, fvGet_nil]
+  | b :: fv => by
+    have ih := fvScale_pointwise c sp x fv
+    unfold fvScale at ih ⊢
+    simp only [List.map_cons]
+    rw [fvGet_cons, fvGet_cons, ih, get_mul]; ring
+
+theorem getD_map_lt (g : Rat → Rat) (l : List Rat) (i : Nat) (h : i < l.length) :
+    (l.map g).getD i 0 = g (l.getD i 0) := by
+  simp [List.getD_eq_getElem?_getD, List.getElem?_map, List.getElem?_eq_getElem h]
+
+theorem get_affine (w t : Rat) (add : Bool) (sp x : List Nat) (b : BF) (hx : Valid sp x) (hb : b.WF sp) :
+    ({ b with vals := b.vals.map (fun v => if add then v * w + t else v * w) } : BF).get sp x
+      = b.get sp x * w + (if add then t else 0) := by
+  obtain ⟨hi, _⟩ := toIndexPartial_spec sp x b.tag hx hb.1.2
+  unfold BF.get
+  simp only
+  rw [getD_map_lt _ _ _ (by rw [hb.2]; exact hi)]
+  cases add <;> simp
+
+theorem fvScaleW_aux (t : Rat) (add : Bool) (sp x : List Nat) (hx : Valid sp x) : ∀ (fv : FV) (w : List Rat),
+    FV.WF sp fv → fv.length ≤ w.length →
+    fvGet sp ((fv.zip w).map (fun bw => ({ bw.1 with vals := bw.1.vals.map (fun v => if add then v * bw.2 + t else v * bw.2) } : BF))) x
+      = (fv.zip w).foldl (fun acc bw => acc + bw.1.get sp x * bw.2) 0 + (if add then (fv.length : Rat) * t else 0)
+  | [], _, _, _ => by simp [fvGet_nil]
+  | b :: fv, [], _, h => by simp at h
+  | b :: fv, wi :: w, hwf, h => by
+    have ih := fvScaleW_aux t add sp x hx fv w (fun c hc => hwf c (List.mem_cons_of_mem _ hc)) (by simpa using h)
+    simp only [List.zip_cons_cons, List.map_cons, List.foldl_cons]
+    rw [fvGet_cons, ih, get_affine wi t add sp x b hx (hwf b (List.mem_cons_self ..)), foldl_add_init _ _ (0 + _)]
+    cases add <;> simp
+    ring
+
+theorem foldl_zip_init (sp x : List Nat) (fv : FV) (w : List Rat) (a : Rat) :
+    (fv.zip w).foldl (fun acc bw => acc + bw.1.get sp x * bw.2) a
+      = a + (fv.zip w).foldl (fun acc bw => acc + bw.1.get sp x * bw.2) 0 :=
+  foldl_add_init (fun bw : BF × Rat => bw.1.get sp x * bw.2) _ a
+
+/-- **operator*=(const Vector &)** equals the weighted combination `getValue(space, x, w)` at every joint
+    assignment.  With the extra constant weight the vector must have at least one basis (the code divides
+    the constant by `bases.size()`); for an empty FactoredVector `*=` drops the constant (observed: docs/C14.md). -/
+theorem fvScaleW_pointwise (sp x : List Nat) (fv : FV) (w : List Rat) (hx : Valid sp x) (hfv : FV.WF sp fv)
+    (hw : w.length = fv.length ∨ (w.length = fv.length + 1 ∧ fv ≠ [])) :
+    fvGet sp (fvScaleW w fv) x = fvGetW sp fv x w := by
+  unfold fvScaleW fvGetW
+  simp only
+  rw [fvScaleW_aux _ _ sp x hx fv w hfv (by omega)]
+  conv_rhs => rw [foldl_zip_init]
+  rcases hw with hw | ⟨hw, hne⟩
+  · have : ¬ (w.length = fv.length + 1) := by omega
+    simp [this]
+  · have hn : (fv.length : Rat) ≠ 0 := by
+      have : fv.length ≠ 0 := by cases fv with | nil => exact absurd rfl hne | cons _ _ => simp
+      exact_mod_cast this
+    simp only [hw, decide_true, if_true]
+    field_simp
+    ring
 
 end AITB.Factored
